@@ -249,3 +249,24 @@ def run(ctx):
     ctx.check("R22.3", f"{ds.key}::mirrored pairs share one seed (each seed duplicated in place; odd positions negate; a task whose share "
                        "starts at a mirrored position re-draws under the shared seed)", dup and negdef and redraw,
               f"duplication {dup}, negation on odd global index {negdef}, re-draw when the partner is on another task {redraw}", ds)
+
+
+_run_c22 = run
+
+
+def run(ctx):  # noqa: F811
+    _run_c22(ctx)
+    m = ctx.model
+    # the deterministic reducer itself must keep the partition-independent tree (premises checked for C23)
+    from ..report import Ctx
+    from .c23 import run as run23
+    sub = Ctx("C23", quiet=True)
+    sub.model = m
+    run23(sub)
+    for o in sub.obs:
+        if o.rule == "R23.4" and ("slots entering the pairing loop" in o.key or "global slot counts" in o.key):
+            ctx.ob("R22.2", o.key, o.verdict, o.detail, None, None, o.witness).loc = o.loc
+    # serial and MPI path of the MAP branch build the same energy (per-iteration options threaded)
+    from .c27 import r27_7
+    okl = m.func("nifty.cl.minimization.optimize_kl", "optimize_kl")
+    r27_7(ctx, m, okl, rule="R22.4")
